@@ -211,9 +211,13 @@ func (s *ReachabilityCache) componentReachDFS(component uint64, direction graph.
 	var (
 		stack      deque.Deque[*reachCursor]
 		rootCursor = s.newRootReachCursor(component, direction)
+
+		// completed holds the full reach of every component that this search has finished or found in the cache. The
+		// component graph is acyclic, so an adjacent component is never on the stack: it is either in here or new.
+		completed = map[uint64]cardinality.Duplex[uint64]{}
 	)
 
-	// Mark the root component as visited and add it to the stack
+	// Add the root component to the stack
 	stack.PushBack(rootCursor)
 
 	for stack.Len() > 0 {
@@ -224,17 +228,21 @@ func (s *ReachabilityCache) componentReachDFS(component uint64, direction graph.
 
 			// Complete the cursor to roll up reach cardinalities
 			nextCursor.Complete()
+			completed[nextCursor.component] = nextCursor.reach
 
 			// Update the cache with this component's reach
 			s.cacheComponentReach(nextCursor, direction)
-		} else if rootCursor.reach.CheckedAdd(nextAdjacentComponent) {
-			// This is a component not yet visited, check if it is cached. If it
-			// is cached, Or(...) its reach and if not traverse into it.
-			if cachedReach, cached := s.cachedComponentReach(nextAdjacentComponent, direction); cached {
-				nextCursor.reach.Or(cachedReach)
-			} else {
-				stack.PushBack(s.newReachCursor(nextAdjacentComponent, direction, nextCursor))
-			}
+		} else if completedReach, isCompleted := completed[nextAdjacentComponent]; isCompleted {
+			// Already resolved by this search: the cursor still has to inherit the full reach of the component, not
+			// just the component itself
+			nextCursor.reach.Or(completedReach)
+		} else if cachedReach, cached := s.cachedComponentReach(nextAdjacentComponent, direction); cached {
+			// This is a component not yet visited but cached: Or(...) its reach
+			completed[nextAdjacentComponent] = cachedReach
+			nextCursor.reach.Or(cachedReach)
+		} else {
+			// This is a component not yet visited, traverse into it
+			stack.PushBack(s.newReachCursor(nextAdjacentComponent, direction, nextCursor))
 		}
 	}
 
